@@ -1,5 +1,7 @@
 import PanderaModel.Strategies
 import PanderaModel.Generated.StrategyRules
+import PanderaModel.Spec
+import PanderaModel.Lemmas.Frame
 /-!
 # C13 — every synthesised example satisfies the schema that produced it
 
@@ -136,6 +138,81 @@ theorem column_sound (spec : ColSpec) (name : Option String) (t : DType) (vals :
     rcases hvals v hv with ⟨h1, _⟩ | ⟨_, h2⟩
     · simp [hna c hc, h1]
     · simp [helem v h2 c hc]
+
+/-! ## a drawn frame satisfies its schema -/
+
+theorem eraseDups_of_nodup (l : List String) (h : l.Nodup) : l.eraseDups = l := by
+  induction l with
+  | nil => rfl
+  | cons a as ih =>
+    rw [List.nodup_cons] at h
+    rw [List.eraseDups_cons]
+    have hf : as.filter (fun b => !b == a) = as := by
+      rw [List.filter_eq_self]
+      intro b hb
+      have : b ≠ a := fun hba => h.1 (hba ▸ hb)
+      simp [this]
+    rw [hf, ih h.2]
+
+/-- the labels a schema of plainly named columns declares, when every one of them is a column of the frame -/
+theorem flatten_matched (cols : List ColSpec) (D : Frame)
+    (hplain : ∀ spec ∈ cols, spec.regex = none ∧ ∃ n, spec.name = some n)
+    (hin : ∀ spec ∈ cols, ∀ n, spec.name = some n → D.hasCol n = true) :
+    (cols.map (fun c => Spec.matched c D)).flatten = cols.filterMap (·.name) := by
+  induction cols with
+  | nil => rfl
+  | cons c cs ih =>
+    obtain ⟨hr, n, hn⟩ := hplain c (by simp)
+    have hc : Spec.matched c D = [n] := by
+      unfold Spec.matched
+      simp [hr, hn, hin c (by simp) n hn]
+    simp only [List.map_cons, List.flatten_cons, hc, List.filterMap_cons, hn]
+    rw [ih (fun s hs => hplain s (by simp [hs])) (fun s hs => hin s (by simp [hs]))]
+    rfl
+
+/-- **a frame assembled the way `dataframe_strategy` assembles it — exactly the declared columns, in
+schema order, each one drawn from its component's support (`column_sound`), the joint uniqueness and
+the index drawn to hold — satisfies the schema** (`Sat`, hence is accepted: C01 `accepts_iff_Sat`),
+whatever `strict` and `ordered` say -/
+theorem frame_sound (S : Schema) (D : Frame)
+    (hplain : ∀ spec ∈ S.columns, spec.regex = none ∧ ∃ n, spec.name = some n)
+    (hnames : D.names = S.columns.filterMap (·.name))
+    (hnd : D.names.Nodup)
+    (hcols : ∀ spec ∈ S.columns, ∀ n c, spec.name = some n → D.col? n = some c →
+      Spec.fieldOk spec (some n) c.dtype c.vals)
+    (hjoint : S.unique ≠ [] → Spec.rowsDistinct
+      (rowsOf D.nrows (((S.unique.filter D.hasCol).filterMap D.col?).map (·.vals))))
+    (hix : ∀ ix, S.index = some ix → Spec.indexSat ix D) :
+    Spec.Sat S D := by
+  have hin : ∀ spec ∈ S.columns, ∀ n, spec.name = some n → D.hasCol n = true := by
+    intro spec hs n hn
+    unfold Frame.hasCol
+    rw [hnames, List.contains_iff_mem, List.mem_filterMap]
+    exact ⟨spec, hs, hn⟩
+  have hdecl : Spec.declared S D = D.names := by
+    unfold Spec.declared
+    rw [flatten_matched S.columns D hplain hin, ← hnames]
+    exact eraseDups_of_nodup _ hnd
+  refine ⟨?_, ?_, ?_, hjoint, hix⟩
+  · intro spec hs
+    obtain ⟨hr, n, hn⟩ := hplain spec hs
+    unfold Spec.columnSat
+    simp only [hr, hn]
+    exact ⟨fun _ => hin spec hs n hn, fun c hc => hcols spec hs n c hn hc⟩
+  · intro _ n hn
+    rw [hdecl, List.contains_iff_mem]; exact hn
+  · intro _
+    unfold Spec.inOrder
+    rw [hdecl, List.filter_eq_self]
+    intro n hn
+    rw [List.contains_iff_mem]; exact hn
+
+/-- the premises are satisfiable: a two-column frame drawn for a strict, ordered schema -/
+example : Spec.Sat
+    { columns := [{ name := some "a", dtype := some .int64, checks := [{ b := .gt (.int 0) }] },
+                  { name := some "b", dtype := some .str, nullable := true }], strict := .yes, ordered := true }
+    { cols := [⟨"a", .int64, [.int 1, .int 2]⟩, ⟨"b", .str, [.str "x", .null]⟩],
+      index := [⟨none, .int64, [.int 0, .int 1]⟩], nrows := 2 } := by decide
 
 /-! ## non-vacuity -/
 
